@@ -240,7 +240,9 @@ CLAIMED = {
                 "names that did not exist -- nothing removed or modified, also when it fails -- and on success every component exists and the result "
                 "is the descent along them (C12_spec_post, C12_extends_changes_nothing_else); the partial lookup of the kernel backend is the first "
                 "ancestor the kernel's walk resolves (C12_partial_lookup_kernel_backend); end to end for the kernel backend: mkdir_all = partial "
-                "lookup, re-open (C09), mk_spec (C12_mkdir_all_kernel_backend). Runtime: whole-sandbox snapshots -- on success the handle equals the kernel's raw in-root resolution "
+                "lookup, re-open (C09), mk_spec (C12_mkdir_all_kernel_backend), and the returned handle is a directory that IS the kernel's in-root "
+                "resolution of the path in the resulting tree (walk composition, walks survive the creation of directories: "
+                "C12_handle_is_resolution_in_resulting_tree, C12_mkdir_all_post_kernel_backend). Runtime: whole-sandbox snapshots -- on success the handle equals the kernel's raw in-root resolution "
                 "of the path in the resulting tree, the new entries form exactly one chain of directories with mode&~umask (|setgid), nothing "
                 "else changed; on failure only one chain of directories was added; racing callers on equal/overlapping paths all succeed "
                 "with handles to the directories now at their paths.",
